@@ -38,7 +38,7 @@ Script(i) == Trace[cl].xs[i].script
 \* the abstract exchange of a concrete one
 Abstract(e, cfg) ==
     [headEnd |-> RHeadLen(e.script), end |-> RWireLen(e.script),
-     closeAfter |-> (RClosesAfter(e.script) \/ e.prog.opts.close), reqClose |-> e.prog.opts.close,
+     closeAfter |-> (RClosesAfter(e.script) \/ EffClose(e.prog)), reqClose |-> EffClose(e.prog),
      untilClose |-> (RHasBody(e.script) /\ e.script.framing = "close"),
      big |-> Big(e.script, cfg)]
 
